@@ -83,7 +83,7 @@ theorem filled_setSlot (sl : Slots) : ∀ i k, getSlot sl i = some none → fill
     cases i with
     | zero =>
       simp [getSlot] at h; subst h
-      simp [setSlot, filled, List.countP_cons]
+      simp [setSlot, filled]
     | succ j =>
       simp [getSlot] at h
       have := ih j k h
@@ -208,7 +208,36 @@ theorem processEncryptedDeal_total (n me : Nat) (e : Option Enc) (o : Out) (h : 
     · simp at h; cases h; rfl
     · split at h
       · cases h; rfl
-      · exact verifyDeal_total _ _ _ _ _ h
+      · split at h
+        · cases h; rfl
+        · exact verifyDeal_total _ _ _ _ _ h
+
+/-- when `ProcessEncryptedDeal` answers (approval or complaint), the aggregator it created stores a
+deal whose share has a value -/
+theorem processEncryptedDeal_stores (n me : Nat) (e : Option Enc) (b : Bool)
+    (h : processEncryptedDeal Cfg.all n me e = .ok b) : storedDeal Cfg.all e = some true := by
+  unfold processEncryptedDeal at h
+  split at h
+  · cases h
+  · cases h
+  · cases h
+  · next p hd =>
+    unfold decryptDeal at hd
+    cases e with
+    | none => simp at hd
+    | some enc =>
+      simp only at hd
+      split at hd; · cases hd
+      split at hd; · cases hd
+      split at hd
+      · split at hd <;> cases hd
+      · injection hd with hd'
+        split at h
+        · simp at h
+        · next i v hs =>
+          cases v with
+          | false => simp at h
+          | true => simp [storedDeal, hd', hs]
 
 theorem processDeal_total (st : DkgSt) (m : DealMsg) : (processDeal Cfg.all st m).2.isPanic = false := by
   unfold processDeal
@@ -245,7 +274,7 @@ theorem processResponse_total (st : DkgSt) (m : RespMsg) : (processResponse Cfg.
     | some v =>
       cases v with
       | noAgg => simp
-      | agg rec =>
+      | agg rec dl =>
         simp only
         cases h1 : verifyResponse Cfg.all st.n rec r with
         | error o => exact verifyResponse_total _ _ _ _ h1
@@ -256,6 +285,104 @@ theorem processResponse_total (st : DkgSt) (m : RespMsg) : (processResponse Cfg.
           · cases h2 : verifyResponse Cfg.all st.n st.dealerResps r with
             | error o => exact verifyResponse_total _ _ _ _ h2
             | ok d => simp only; split <;> rfl
+
+/-! every aggregator the generator holds stores a deal whose share has a value: what `DistKeyShare` relies on -/
+
+def GoodVers (vers : List (Nat × VerSt)) : Prop :=
+  ∀ e ∈ vers, ∀ r d, e.2 = .agg r d → d = some true
+
+theorem vlookup_mem (k : Nat) (m : List (Nat × VerSt)) (v : VerSt) (h : vlookup k m = some v) : (k, v) ∈ m := by
+  induction m with
+  | nil => simp [vlookup] at h
+  | cons x r ih =>
+    obtain ⟨k', v'⟩ := x
+    simp only [vlookup] at h
+    split at h
+    · next e => cases h; subst e; simp
+    · exact List.mem_cons_of_mem _ (ih h)
+
+theorem goodVers_vset (k : Nat) (v : VerSt) (m : List (Nat × VerSt)) (hm : GoodVers m)
+    (hv : ∀ r d, v = .agg r d → d = some true) : GoodVers (vset k v m) := by
+  intro e he r d hed
+  simp only [vset, List.mem_cons, List.mem_filter] at he
+  rcases he with he | he
+  · subst he; exact hv r d hed
+  · exact hm e he.1 r d hed
+
+theorem processDeal_good (st : DkgSt) (m : DealMsg) (hg : GoodVers st.vers) : GoodVers (processDeal Cfg.all st m).1.vers := by
+  unfold processDeal
+  split
+  · exact hg
+  · split
+    · exact hg
+    · simp only
+      cases h : processEncryptedDeal Cfg.all st.n st.me m.enc with
+      | error o => exact goodVers_vset _ _ _ hg (by intro r d hh; cases hh)
+      | ok b =>
+        refine goodVers_vset _ _ _ hg ?_
+        intro r d hh
+        cases hh
+        exact processEncryptedDeal_stores _ _ _ _ h
+
+theorem processResponse_good (st : DkgSt) (m : RespMsg) (hg : GoodVers st.vers) : GoodVers (processResponse Cfg.all st m).1.vers := by
+  unfold processResponse
+  simp only [all_respNil, all_respVerOk, all_aggNil, Bool.true_and]
+  cases hr : m.resp with
+  | none => simpa using hg
+  | some r =>
+    simp only [Option.isNone_some, Bool.false_eq_true, if_false]
+    cases hv : vlookup m.idx st.vers with
+    | none => simpa using hg
+    | some v =>
+      cases v with
+      | noAgg => simpa using hg
+      | agg rec dl =>
+        have hdl : dl = some true := hg _ (vlookup_mem _ _ _ hv) rec dl rfl
+        simp only
+        cases h1 : verifyResponse Cfg.all st.n rec r with
+        | error o => exact hg
+        | ok rec' =>
+          have g1 : GoodVers (vset m.idx (.agg rec' dl) st.vers) :=
+            goodVers_vset _ _ _ hg (by intro r d hh; cases hh; exact hdl)
+          simp only
+          split
+          · exact g1
+          · cases h2 : verifyResponse Cfg.all st.n st.dealerResps r with
+            | error o => exact g1
+            | ok d => exact g1
+
+theorem dkgRun_good (ops : List DkgOp) : ∀ st, GoodVers st.vers → GoodVers (dkgRun Cfg.all st ops).1.vers := by
+  induction ops with
+  | nil => intro st h; simpa [dkgRun] using h
+  | cons op r ih =>
+    intro st h
+    simp only [dkgRun]
+    apply ih
+    cases op with
+    | deal m => exact processDeal_good st m h
+    | resp m => exact processResponse_good st m h
+
+theorem distKeyShare_good (st : DkgSt) (hg : GoodVers st.vers) : (distKeyShare st).isPanic = false := by
+  unfold distKeyShare
+  have h1 : st.vers.any (fun e => e.2.noDeal) = false := by
+    rw [List.any_eq_false]
+    intro e he
+    cases hv : e.2 with
+    | noAgg => simp [VerSt.noDeal]
+    | agg r d => have := hg e he r d hv; subst this; simp [VerSt.noDeal]
+  have h2 : st.vers.any (fun e => e.2.noValue) = false := by
+    rw [List.any_eq_false]
+    intro e he
+    cases hv : e.2 with
+    | noAgg => simp [VerSt.noValue]
+    | agg r d => have := hg e he r d hv; subst this; simp [VerSt.noValue]
+  simp [h1, h2]
+
+theorem goodVers_init (n me : Nat) : GoodVers (DkgSt.init n me).vers := by
+  intro e he r d hh
+  simp [DkgSt.init] at he
+  subst he
+  cases hh; rfl
 
 theorem dkgRun_total (ops : List DkgOp) : ∀ st, ∀ o ∈ (dkgRun Cfg.all st ops).2, o.isPanic = false := by
   induction ops with
@@ -295,7 +422,7 @@ theorem aerase_sublist {β : Type} (k : String) (m : List (String × β)) : (aer
     simp only [aerase]
     split
     · exact List.Sublist.cons _ ih
-    · exact List.Sublist.cons₂ _ ih
+    · exact List.Sublist.cons_cons _ ih
 
 theorem aerase_key {β : Type} (k : String) (m : List (String × β)) : ∀ e ∈ aerase k m, e.1 ≠ k := by
   induction m with
@@ -369,7 +496,7 @@ theorem handlePeerMsg_inv (s : Sess) (sid : String) (it : Item) (inv : SessInv s
   unfold handlePeerMsg
   have hd : respDeref Cfg.all ((alookup sid s.buf).getD []) it = false := by
     cases it <;> simp [respDeref]
-    next d r => cases r <;> simp [respDeref]
+    next d r => cases r <;> simp
   simp only [hd, Bool.false_eq_true, if_false]
   split
   · exact ⟨inv, rfl⟩
